@@ -45,11 +45,14 @@ def generate(rng, tier):
             elif pid in live:
                 ops.append({"t": round(t, 6), "op": "probe", "act": "remove", "id": pid})
                 live.discard(pid)
+                if rng.random() < 0.15:
+                    ops.append({"t": round(t + 0.0000005, 6), "op": "probe", "act": "remove", "id": pid, "again": True})
             else:
                 script = {}
                 if rng.random() < 0.5:
                     other = f"p{rng.randrange(nprobes)}"
-                    script[str(rng.randrange(0, 3))] = [rng.choice(["add", "remove"]), other]
+                    # (third element: also when the other probe is registered / removed already)
+                    script[str(rng.randrange(0, 3))] = [rng.choice(["add", "remove"]), other, int(rng.random() < 0.3)]
                 ops.append({"t": round(t, 6), "op": "probe", "act": "add", "id": pid, "script": script})
                 live.add(pid)
             t += 0.000001
